@@ -396,7 +396,7 @@ func c04(c *Ctx) {
 		q <- os.Interrupt
 		select {
 		case <-done:
-		case <-time.After(5 * time.Second):
+		case <-liveAfter(5 * time.Second):
 			c.Res.Inconcl("listener did not stop")
 		}
 	}
@@ -438,7 +438,7 @@ func c04(c *Ctx) {
 				if err != nil {
 					c.Res.Violate("C04:listen:shutdown-with-busy-consumer:error", "Listen returned an error when stopped while the event callback was busy: "+err.Error(), nil, -2)
 				}
-			case <-time.After(10 * time.Second):
+			case <-liveAfter(10 * time.Second):
 				c.Res.Inconcl("listener did not stop within 10 s with a consumer busy for 3 s")
 			}
 			select {
